@@ -412,6 +412,8 @@ func c01(r *Report) {
 	}
 	g := G(handle)
 
+	r.Guard("C01.R1", "through a shaped listener too: a shaped read or write never comes back empty-handed without an error", func() { shapedCallbacksDoIORule(r) })
+
 	r.Guard("C01.R1", "exactly one response is written and then flushed on every normal exit of the exchange function", func() {
 		responseWrittenRule(r, handle)
 	})
